@@ -23,7 +23,7 @@ CLIENTS = [(('alice', None), (1, 2)), (('bob', ['g1']), (1, 4)), (('carol', None
 
 def plan(tier):
     return {
-        'level': 'exploration', 'shards': 16, 'budget_s': 150 if tier == 'quick' else 1200,
+        'level': 'exploration', 'shards': 16, 'budget_s': 300 if tier == 'quick' else 1200,
         'rule': 'short histories of 2-4 real KmipSession threads (different users, groups and KMIP versions) on one '
                 'engine, 3-7 requests each over a few shared objects (creates, identifier-less batch items, attribute '
                 'changes, Activate/Revoke/Destroy of each other\'s objects, reads, Locate), with thread yields injected at '
@@ -43,8 +43,9 @@ def plan(tier):
 
 def cases(tier, seed):
     n = 400 if tier == 'quick' else 4000
-    return [{'hist': i} for i in range(n)] + [{'codec': i} for i in range(16 if tier == 'quick' else 160)] + \
-        [{'beside': i} for i in range(16 if tier == 'quick' else 160)]
+    # the short classes first: the histories take what is left of the budget (their search times vary from run to run)
+    return [{'beside': i} for i in range(16 if tier == 'quick' else 160)] + [{'codec': i} for i in range(16 if tier == 'quick' else 160)] + \
+        [{'hist': i} for i in range(n)]
 
 
 class CountingLock(object):
